@@ -297,9 +297,8 @@ def d3_param_index_update(ctx):
                     detail=f"{nbranches} index branches for {len(params_nt.fields)} Params fields")
 
 
-def d3(ctx):
+def d3_objective_closures(ctx, pattern=r"^(vec_jac_xp\d*|jac_xp\d*_vec)$", min_count=6):
     rule = "D3/T5-parameter-slots"
-    d3_param_index_update(ctx)
     # Objective.__init__ closures
     init = ctx.need(f"{OBJ}:Objective.__init__")
     n_cl = 0
@@ -307,7 +306,7 @@ def d3(ctx):
         if not (isinstance(st, ast.Assign) and isinstance(st.targets[0], ast.Attribute)):
             continue
         attr = st.targets[0].attr
-        if not re.match(r"^(vec_jac_xp\d*|jac_xp\d*_vec)$", attr):
+        if not re.match(pattern, attr):
             continue
         n_cl += 1
         mnum = re.search(r"xp(\d+)", attr)
@@ -351,13 +350,15 @@ def d3(ctx):
                    detail=f"slot {want}: param_index_update index {ks}, primal p[{prim}]",
                    bad_detail=f"Objective.{attr} differentiates slot {ks} at primal p{prim} (name says slot {want})"
                               + ("" if lamvar_ok else "; the updated tuple / primal is not the closure's own parameter argument or the replaced value is not the differentiation variable"))
-    if n_cl < 6:
-        raise Incomplete(f"{n_cl} parameter jvp/vjp closures found in Objective.__init__ (6 on the reference tree)")
+    if n_cl < min_count:
+        raise Incomplete(f"{n_cl} parameter jvp/vjp closures found in Objective.__init__ ({min_count} on the reference tree)")
     # methods delegate to the same-numbered closure
     cls = ctx.need(f"{OBJ}:Objective")
     for meth in cls.children:
         mm = re.match(r"^(vec_jacobian_p(\d)|jacobian_p(\d?)_vec)$", meth.name)
         if not mm:
+            continue
+        if not re.match(pattern, "vec_jac_xp0" if meth.name.startswith("vec_") else "jac_xp_vec"):
             continue
         want = int(mm.group(2) or mm.group(3) or 0)
         rets = meth.returns()
@@ -371,6 +372,12 @@ def d3(ctx):
             ok = gotk == want and kind_ok
         ctx.decide(rule, ok, meth, rets[0] if rets else None, construct=f"Objective.{meth.name}",
                    detail=f"delegates to self.{got}", bad_detail=f"Objective.{meth.name} delegates to self.{got}")
+
+
+def d3(ctx):
+    rule = "D3/T5-parameter-slots"
+    d3_param_index_update(ctx)
+    d3_objective_closures(ctx)
     # nonlinear_solve_with_state_b : Params(dp0, dp1, dp2, None, dp4)
     b = ctx.need(f"{NS}:nonlinear_solve_with_state_b")
     bcfg = cfg_of(b)
